@@ -1,9 +1,13 @@
 #!/bin/sh
-# usage: tools/try_seed.sh <seed dir with patch.diff> <property id>   - apply to /repo, run the quick check, undo
+# usage: tools/try_seed.sh <seed dir with patch.diff> <property id>
+# Applies the change to a scratch copy of /repo's working tree (so that concurrent work on /repo is not disturbed), runs the
+# quick check against it (VERIF_REPO), removes the copy.  The committed evaluation protocol (git -C /repo apply ...; ./check;
+# git -C /repo checkout -- .) gives the same verdict because every check rebuilds from the tree it is pointed at.
 set -u
 D=$1; P=$2
-git -C /repo apply "$D/patch.diff" || { echo "patch does not apply"; exit 3; }
-cd /verif && ./check $P --tier quick > /tmp/try_seed_out.txt 2>&1; rc=$?
-git -C /repo checkout -- .
-grep -E "^VIOLATION|^UNDECIDED|^OK|^obligation=" /tmp/try_seed_out.txt | cut -c1-260 | head -12
+T=/tmp/try_repo_$$
+mkdir -p $T && rsync -a --exclude target --exclude .git /repo/ $T/ && (cd $T && git init -q . 2>/dev/null; git -C $T apply "$D/patch.diff") || { echo "patch does not apply"; rm -rf $T; exit 3; }
+cd /verif && VERIF_REPO=$T ./check $P --tier quick > /tmp/try_seed_out_$$.txt 2>&1; rc=$?
+grep -E "^VIOLATION|^UNDECIDED|^OK|^obligation=" /tmp/try_seed_out_$$.txt | cut -c1-260 | head -12
 echo "exit=$rc"
+rm -rf $T /tmp/try_seed_out_$$.txt
